@@ -483,6 +483,7 @@ def run_two_operators(case: dict[str, Any], rng: random.Random) -> dict[str, Any
     from kv.world import make_storage
 
     sim = Sim(seed=case['seed'])
+    sim.max_calls = 600      # two operators, two objects, a handful of edits: a few dozen handler calls; a ping-pong is cut short (runaway) instead of grinding to the horizon
     pfx_a, pfx_b = rng.choice([('kopf.zalando.org', 'b-op.example.org'), ('a-op.example.com', 'b-op.example.org'), ('a-op.example.com', 'kopf.zalando.org')])
     sa = rng.choice(['default', 'annotations'])
     regs = {}
